@@ -155,6 +155,15 @@ func init() {
 		wholeInputRule(w, r, "C07") // declarations the parser never read get no type and no diagnostic
 		nameKeyedSetOverInline(w, r, "C07", func(fn *ssa.Function) bool { return isGeneratorFunc(fn) && recvNamedCore(fn) != "LuaWspGenerator" && roleOf(fn) != "test" }, "a generator remembers the packets it has written under their names and consults that set for inline objects too: of two inline objects that share a name (or an inline object named like a declared packet) only the first is emitted, and the members of the other are encoded with its layout")
 		wireModelFrame(w, r, "C07", framePackets, nil, map[string]bool{"Packet": true, "Field": true}, "a generator rewrites the packet list / a field list / the kind of a field in the shared model: the targets generated after it (and, for a list rewritten while it is being walked, the generator itself) no longer emit every declared packet and field")
+		// round 9: a pad character rewritten in the shared model for one target's literal syntax ('\0') is not a literal of the
+		// next target's language - its file is written, the compilation succeeds, the file does not compile
+		r.refile("C07/model-frame", "C07/model-frame", func(sr *Report) {
+			wireModelFrame(w, sr, "C07", framePadding, nil, nil, "a generator rewrites a pad character / an option value in the shared model in the literal syntax of its own language: the targets generated after it emit it as written - a file that is not well-formed code of their language, from a compilation that succeeded")
+		}, func(o Obligation) bool { return !o.OK })
+		// round 9: the files a successful compilation leaves behind are the files the generators returned - nothing under compile
+		// but the writer touches the file system (a clean-up pass that removes "stale" files removes another target's output when two
+		// output directories are nested or equal)
+		r.refile("C16/compile-writes-only-in-writer", "C07/compile-writes-only-in-writer", func(sr *Report) { c16Compile(w, sr) }, nil)
 		c12OptionValidation(w, r, "C07") // a value outside the documented list reaches the type tables as a missing row: empty type names in the output
 		wireTemplateTaint(w, wc, r, "C07", []string{"go", "rust", "java", "python", "cpp", "lua"})
 		wireAssumptions(r)
